@@ -69,6 +69,12 @@ func (c08) Cases(tier string, seed int64, kf *KnownFindings) []Case {
 	return cs
 }
 
+type mpNestF64 struct {
+	M map[string]map[float64]string
+	L []map[float64]string
+	P map[float64]*zoo.Inner
+}
+
 // two Go types that a caller's name map sends to ONE class name (same field names, other widths)
 type AltF32 struct {
 	V float32
@@ -375,6 +381,40 @@ func (c08) Run(c Case, env *Env) Result {
 				}
 				if !found {
 					viol("mismatch:value", fmt.Sprintf("(%s) decoded as %v", hexClip(o.Wire), o.Dec))
+				}
+			}
+		}
+		// NaN keys in maps that are converted entry by entry (nested, inside a list) and in front of a
+		// struct type that extraction only meets behind that key
+		for j, v := range []interface{}{
+			&mpNestF64{M: map[string]map[float64]string{"o": {math.NaN(): "n", 1: "one"}}, L: []map[float64]string{{math.NaN(): "l"}}},
+			&mpNestF64{P: map[float64]*zoo.Inner{math.NaN(): {A: 7, S: "behind NaN"}}},
+		} {
+			res.Evals++
+			res.NT = append(res.NT, Hash64(fmt.Sprintf("nan-nested|%d", j)))
+			cc := c
+			cc.Sub = 100 + j
+			o := roundTrip(v)
+			feats := []string{"double.nan", "pos=nested-map-key"}
+			switch {
+			case o.Panic != nil:
+				env.Viol(&res, Violation{Class: o.Panic.Class, Features: feats, Detail: o.Stage + " panic " + o.Panic.Msg, Case: cc})
+			case o.EncErr != nil || o.DecErr != nil:
+				env.Viol(&res, Violation{Class: "dec-error", Features: feats, Detail: fmt.Sprintf("NaN key in a nested map (%s): %v %v", hexClip(o.Wire), o.EncErr, o.DecErr), Case: cc})
+			default:
+				d, ok := o.Dec.(*mpNestF64)
+				good := ok
+				if ok && j == 0 {
+					good = len(d.M["o"]) == 2 && d.M["o"][1] == "one" && len(d.L) == 1 && len(d.L[0]) == 1
+				}
+				if ok && j == 1 {
+					good = len(d.P) == 1
+					for _, in := range d.P {
+						good = good && in != nil && in.A == 7 && in.S == "behind NaN"
+					}
+				}
+				if !good {
+					env.Viol(&res, Violation{Class: "mismatch:value", Features: feats, Detail: fmt.Sprintf("NaN key in a nested map (%s) decoded as %+v", hexClip(o.Wire), o.Dec), Case: cc})
 				}
 			}
 		}
